@@ -14,7 +14,22 @@ ASSUMPTIONS = [
     '4 ulp per summand (of the byte figures, and of the instants scaled by rate/8), because token levels and instants are rounded sums',
     'the shaper process on the real kernel refines the FifoServer LTS: checked by replay (labels from Process.target), not proved',
 ]
-TRUSTED_EXTRA = ['the kernel guarantees (G1-G3) that make `tick` admissible only at quiescence are theorems of model K (C01), assumed for the device LTS']
+TRUSTED_EXTRA = ['the kernel guarantees (G1-G3) that make `tick` admissible only at quiescence are theorems of model K (C01), assumed for the device LTS',
+                 'py2lean/elem.py + elements.py (typed AST-subset translator that splits a server generator at its `yield env.timeout` statements; '
+                 'hand-written field schema of TokenBucket / TwoRateTokenBucket objects, declared effects `self.store.put(packet)`, `self.out.put(packet)`, `packet.color = …`); '
+                 'the bridge theorems C11.tb_generated_eq_model, C11.tworate_generated_eq_model tie its output to the model']
+BRIDGES = ['C11.tb_generated_eq_model', 'C11.tworate_generated_eq_model']
+HAND_MODELLED = ['TokenBucket.run / TwoRateTokenBucket.run (the `while True` / `get` frame; the round itself is translated)', 'the constructors (initial levels)']
+_PREP = {}
+
+
+def prepare(ctx):
+    """regenerate lean/OnlVerif/Generated/Bucket.lean from the source under $ONL_REPO (a translator failure or a bridge
+    theorem that no longer compiles is a broken obligation)"""
+    from py2lean import translate, elements
+    _PREP['translated'] = elements.TRANSLATED['Bucket']
+    _PREP['rewritten'] = translate.regenerate_all(only=('Bucket',))
+    _PREP['diff_vs_pinned'] = translate.diff_vs_pinned('Bucket')
 
 COL = {'': 0, 'green': 1, 'yellow': 2, 'red': 3}
 
@@ -333,4 +348,6 @@ def run(ctx):
                    'distinct case in which at least one packet waited for tokens and at least one was released without waiting',
            'samples': samples, 'traces_validated_against_impl': len(cases) - len(dis),
            'action_lines_replayed': sum(len(r.acts) for r in runs.values()), 'operation_histogram': dict(sorted(hist.items()))}
+    cov.update({'translated': _PREP.get('translated', []), 'generated_files_rewritten': _PREP.get('rewritten', []),
+                'generated_diff_vs_pinned': _PREP.get('diff_vs_pinned', []), 'bridge_theorems': BRIDGES, 'hand_modelled': HAND_MODELLED})
     return {'coverage': cov, 'disagreements': dis, 'oracle_failures': orc}
